@@ -101,8 +101,7 @@
         let e = small_entries_mode::<N>($m % 2);
         let v = to_entries(&e);
         unsafe { ROOT_BUDGET = BUDGET; }
-        let mut out = [0x55u8; 64];
-        const _: () = assert!(START + 1 + 4 * 9 <= 64);
+        let mut out = [0x55u8; 200];
         let mut w = FixW::new(&mut out, START as u64);
         let r = write_directories(&mut w, &v[..], Compression::None, Some(WriteDirsOverflowStrategy::OnlyLeafPointers { start_size: Some(1 + $m / 2) }));
         assert!(r.is_ok());
